@@ -145,6 +145,7 @@ func tyCores() []tyCore {
 			return schema.NewTypedObject[tyCircle]("Circle", tyCircleObj().Properties())
 		}},
 		{"typed-scope", func() schema.Type { return schema.NewTypedScopeSchema[tySquare](tySquareObj()) }},
+		{"any-typed-object", func() schema.Type { return schema.NewTypedObject[tyCircle]("Circle", tyCircleObj().Properties()).Any() }},
 		{"typed-list", func() schema.Type {
 			return schema.NewTypedListSchema[string](schema.NewStringSchema(nil, nil, nil), nil, sp(int64(3)))
 		}},
@@ -205,6 +206,7 @@ func tyTargeted() []any {
 func groupTyped(s *sink, g *hx.Gen) {
 	groupTypedAPI(s, g)
 	groupTypedPaths(s, g)
+	groupStepOutput(s, g)
 	cores := tyCores()
 	wraps := tyWraps()
 	core := cores[g.R.Intn(len(cores))]
@@ -335,6 +337,7 @@ func tyAPISchemas() []tyCore {
 		{"oneof", func() schema.Type {
 			return schema.NewOneOfStringSchema[tyShape](map[string]schema.Object{"c": tyCircleObj(), "q": tySquareObj()}, "kind", false)
 		}},
+		{"any typed object", func() schema.Type { return schema.NewTypedObject[tySquare]("Square", tySquareObj().Properties()).Any() }},
 	}
 }
 
@@ -532,6 +535,53 @@ func groupTypedPaths(s *sink, g *hx.Gen) {
 			if res.C == nil || !*res.C || !samePath(stripMarkers(res.Path), want) {
 				s.finding(Finding{Prop: "C17", What: "struct-mapped object: the rejection does not name the offending property",
 					Detail: []string{desc, "expected path " + pathText(want), "got " + res.JSON()}})
+			}
+		}
+	}
+}
+
+// groupStepOutput: a step output schema is a thin wrapper around its scope: every operation must
+// give exactly what the scope gives, and never panic.
+func groupStepOutput(s *sink, g *hx.Gen) {
+	scope := schema.NewScopeSchema(tySquareObj())
+	so := schema.NewStepOutputSchema(scope, nil, g.R.Intn(2) == 0)
+	inputs := append(tyTargeted(), g.RandomVal(0).ToGo())
+	for _, x := range inputs {
+		x := x
+		desc := fmt.Sprintf("step output, input %T %s", x, clipStr(fmt.Sprintf("%#v", x), 160))
+		type out struct {
+			v   any
+			err bool
+		}
+		run := func(f func() (any, error)) (out, hx.Result) {
+			var o out
+			r := hx.Guard(func() hx.Result {
+				v, err := f()
+				o = out{v, err != nil}
+				return hx.Result{R: "ok"}
+			})
+			return o, r
+		}
+		pairs := []struct {
+			name string
+			a, b func() (any, error)
+		}{
+			{"Unserialize", func() (any, error) { return so.Unserialize(x) }, func() (any, error) { return scope.Unserialize(x) }},
+			{"Validate", func() (any, error) { return nil, so.Validate(x) }, func() (any, error) { return nil, scope.Validate(x) }},
+			{"Serialize", func() (any, error) { return so.Serialize(x) }, func() (any, error) { return scope.Serialize(x) }},
+			{"ValidateCompatibility", func() (any, error) { return nil, so.ValidateCompatibility(x) }, func() (any, error) { return nil, scope.ValidateCompatibility(x) }},
+			{"ValidateReferences", func() (any, error) { return nil, so.ValidateReferences() }, func() (any, error) { return nil, scope.ValidateReferences() }},
+		}
+		for _, p := range pairs {
+			oa, ra := run(p.a)
+			ob, rb := run(p.b)
+			s.stats["stepoutput:"+p.name]++
+			if ra.R == "panic" || rb.R == "panic" {
+				s.finding(Finding{Prop: "C04", What: p.name + " of a step output schema panicked: " + ra.Msg + rb.Msg, Detail: []string{desc}})
+				continue
+			}
+			if oa.err != ob.err || goCanon(oa.v) != goCanon(ob.v) {
+				s.finding(Finding{Prop: "C01", What: p.name + " of a step output schema differs from its scope's", Detail: []string{desc, goCanon(oa.v), goCanon(ob.v)}})
 			}
 		}
 	}
